@@ -7,7 +7,12 @@
   `QGreedyPolicyWrapper::getActionProbability` decides ties with `checkEqualGeneral`, so on near-ties its row sums to
   LESS than one (C09: 5/6 on a three-value chain).  What is true, and proved here for every table, every number of
   actions and every history:
-    * `gProb_substochastic`    the scan's outputs are in [0,1] and sum to at most one (exactly one under separation, C09b);
+    * `gProb_substochastic`    the AS-FOUND scan's outputs are in [0,1] and sum to at most one (exactly one under separation, C09b);
+    * round 4: the model follows the form the translator extracts (`Gen.C09.greedyMaxFirst`; `gProbX` = `GForm.repaired.prob` since repo
+      48b02c6: maximum first, `1/count` on the entries `checkEqualGeneral` to it): `repaired_prob_sum`, `gProbX_sum_one`, `greedyPol_isDist`
+      — the row is a probability DISTRIBUTION (sum exactly one) for every table, no separation hypothesis; `gProbX_substochastic`,
+      `gProbX_nonneg|le_one` hold in either form, so every bound below is form-independent; `gProbX_eq_gProb_on_classes`: the forms agree
+      where `checkEqualGeneral` is transitive;
     * `esarsaP_bounded`        clause 1 for ExpectedSARSA with ANY table-dependent sub-stochastic policy object;
       `esarsa_greedy_bounded`, `esarsa_epsgreedy_bounded` — the two library objects;
     * `esarsa_greedyPol_qstar_fixed`  clause 2 through `QGreedyPolicy` when Q* has exact ties only;
@@ -19,6 +24,7 @@ import AITB.Model.LearnPolicies
 import AITB.Props.C11
 import AITB.Props.C11Traces
 import AITB.Props.C09b
+import AITB.Props.C09h
 
 namespace AITB.Pol
 
@@ -28,9 +34,7 @@ theorem absQ_sub_comm (a b : Rat) : absQ (a - b) = absQ (b - a) := by
 theorem minQ_comm (a b : Rat) : minQ a b = minQ b a := by
   unfold minQ; split_ifs <;> linarith
 
-/-- `checkEqualGeneral` does not depend on the order of its arguments -/
-theorem ceG_symm (a b : Rat) : ceG a b = ceG b a := by
-  unfold ceG ceS; rw [absQ_sub_comm a b, minQ_comm (absQ a) (absQ b)]
+-- (`ceG_symm` is C09h's)
 
 /-- the entries `getActionProbability(a)` counts: those `checkEqualGeneral` calls equal to `q a` -/
 def tie (q : Nat → Rat) (a : Nat) : Nat → Bool := fun i => ceG (q i) (q a)
@@ -200,10 +204,78 @@ theorem epsProb_substochastic {ε : Rat} (hε : 0 ≤ ε ∧ ε ≤ 1) {p : Nat 
       linarith
   nlinarith [mul_le_mul_of_nonneg_left hp (by linarith : (0 : Rat) ≤ 1 - ε)]
 
+/-! ### the repaired ("maximum first") form of the wrapper — repo 48b02c6, `GForm.repaired` -/
+
+theorem repaired_prob_eq (q : Nat → Rat) (n a : Nat) : GForm.repaired.prob q n a =
+    if ceG (q a) (maxTo q (n - 1)) then 1 / (countTo (fun i => ceG (q i) (maxTo q (n - 1))) n : Rat) else 0 := by
+  show (if ceG (q a) (maxTo q (n - 1)) then 1 / ((tieList ceG q n).length : Rat) else 0) = _
+  unfold tieList; rw [← countTo_eq_filter_length]
+
+theorem repaired_prob_nonneg (q : Nat → Rat) (n a : Nat) : 0 ≤ GForm.repaired.prob q n a := by
+  rw [repaired_prob_eq]; split
+  · exact div_nonneg zero_le_one (Nat.cast_nonneg _)
+  · exact le_refl _
+
+theorem repaired_prob_le_one (q : Nat → Rat) (n a : Nat) : GForm.repaired.prob q n a ≤ 1 := by
+  rw [repaired_prob_eq]; split
+  · exact inv_nat_le_one _
+  · exact zero_le_one
+
+/-- **with the true maximum taken first the row is a probability distribution for EVERY value row**: sum exactly one -/
+theorem repaired_prob_sum (q : Nat → Rat) (n : Nat) (hn : 0 < n) : sumTo n (GForm.repaired.prob q n) = 1 :=
+  (greedy_repaired_coherent q n hn).2.2.2.2.1
+
+theorem repaired_prob_sum_le (q : Nat → Rat) (n : Nat) : sumTo n (GForm.repaired.prob q n) ≤ 1 := by
+  rcases Nat.eq_zero_or_pos n with h | h
+  · subst h; simp [sumTo]
+  · exact le_of_eq (repaired_prob_sum q n h)
+
 end AITB.Pol
 
 namespace AITB.Learn
 open AITB.Pol (gProb epsProb Sep)
+
+/-! ### `gProbX`: the greedy probability in the form the translator extracted (`Gen.C09.greedyMaxFirst`) -/
+
+theorem gProbX_eq_repaired (h : AITB.Gen.C09.greedyMaxFirst = true) (q : Nat → Rat) (n a : Nat) :
+    gProbX q n a = AITB.Pol.GForm.repaired.prob q n a := by
+  unfold gProbX gForm; rw [h]; rfl
+
+theorem gProbX_eq_gProb (h : AITB.Gen.C09.greedyMaxFirst = false) (q : Nat → Rat) (n a : Nat) :
+    gProbX q n a = gProb q n a := by
+  unfold gProbX gForm; rw [h]
+  exact (AITB.Pol.greedy_as_written_eq q n).2.1 a
+
+/-- whichever of the two forms the source has: every entry in [0,1] … -/
+theorem gProbX_nonneg (q : Nat → Rat) (n a : Nat) : 0 ≤ gProbX q n a := by
+  cases h : AITB.Gen.C09.greedyMaxFirst
+  · rw [gProbX_eq_gProb h]; exact AITB.Pol.gProb_nonneg _ _ _
+  · rw [gProbX_eq_repaired h]; exact AITB.Pol.repaired_prob_nonneg _ _ _
+
+theorem gProbX_le_one (q : Nat → Rat) (n a : Nat) : gProbX q n a ≤ 1 := by
+  cases h : AITB.Gen.C09.greedyMaxFirst
+  · rw [gProbX_eq_gProb h]; exact AITB.Pol.gProb_le_one _ _ _
+  · rw [gProbX_eq_repaired h]; exact AITB.Pol.repaired_prob_le_one _ _ _
+
+/-- … and the row sums to at most one (form-independent: what the bounds theorems need) -/
+theorem gProbX_substochastic (q : Nat → Rat) (n : Nat) : AITB.Pol.sumTo n (gProbX q n) ≤ 1 := by
+  cases h : AITB.Gen.C09.greedyMaxFirst
+  · rw [AITB.Pol.sumTo_congr (fun i _ => gProbX_eq_gProb h q n i)]; exact AITB.Pol.gProb_substochastic q n
+  · rw [AITB.Pol.sumTo_congr (fun i _ => gProbX_eq_repaired h q n i)]; exact AITB.Pol.repaired_prob_sum_le q n
+
+/-- **the stronger fact for the maximum-first form**: exactly one, for every value row, no separation hypothesis -/
+theorem gProbX_sum_one (h : AITB.Gen.C09.greedyMaxFirst = true) (q : Nat → Rat) (n : Nat) (hn : 0 < n) :
+    AITB.Pol.sumTo n (gProbX q n) = 1 := by
+  rw [AITB.Pol.sumTo_congr (fun i _ => gProbX_eq_repaired h q n i)]; exact AITB.Pol.repaired_prob_sum q n hn
+
+/-- on rows where `checkEqualGeneral` is transitive (in particular separated rows) the two forms give the same probabilities,
+    so statements about such rows do not depend on the form -/
+theorem gProbX_eq_gProb_on_classes (q : Nat → Rat) (n : Nat) (hn : 0 < n) (hcls : AITB.Pol.Cls q n) (a : Nat) (ha : a < n) :
+    gProbX q n a = gProb q n a := by
+  cases h : AITB.Gen.C09.greedyMaxFirst
+  · exact gProbX_eq_gProb h q n a
+  · rw [gProbX_eq_repaired h, (AITB.Pol.greedy_repaired_eq_on_classes q n hn hcls).2.1 a ha]
+    exact (AITB.Pol.greedy_as_written_eq q n).2.1 a
 
 theorem sumTo_eq_pol (n : Nat) (f : Nat → Rat) : sumTo n f = AITB.Pol.sumTo n f := by
   induction n with
@@ -218,7 +290,16 @@ theorem IsDist.sub {A : Nat} {π : Nat → Nat → Rat} (h : IsDist A π) : SubD
   fun s => ⟨(h s).1, le_of_eq (h s).2⟩
 
 theorem greedyPol_subdist (A : Nat) (tbl : QF) : SubDist A (greedyPol A tbl) :=
-  fun s => ⟨fun a _ => AITB.Pol.gProb_nonneg _ _ _, by rw [sumTo_eq_pol]; exact AITB.Pol.gProb_substochastic (tbl s) A⟩
+  fun s => ⟨fun a _ => gProbX_nonneg _ _ _, by rw [sumTo_eq_pol]; exact gProbX_substochastic (tbl s) A⟩
+
+/-- **as extracted (maximum-first form): `QGreedyPolicy`'s rows are probability distributions for every table** — the hypothesis of
+    round 1's `esarsa_bounded` (`IsDist`) now holds for the real policy object without any separation assumption -/
+theorem greedyPol_isDist (h : AITB.Gen.C09.greedyMaxFirst = true) (A : Nat) (hA : 0 < A) (tbl : QF) : IsDist A (greedyPol A tbl) :=
+  fun s => ⟨fun a _ => gProbX_nonneg _ _ _, by rw [sumTo_eq_pol]; exact gProbX_sum_one h (tbl s) A hA⟩
+
+/-- obligation over the generated flag: the source has the maximum-first form, so the statement above applies to the library as it is -/
+theorem greedyPol_isDist_as_extracted (A : Nat) (hA : 0 < A) (tbl : QF) : IsDist A (greedyPol A tbl) :=
+  greedyPol_isDist (by decide) A hA tbl
 
 theorem epsPol_subdist (ε : Rat) (hε : 0 ≤ ε ∧ ε ≤ 1) (A : Nat) (p : Nat → Nat → Rat) (hp : SubDist A p) :
     SubDist A (epsPol ε A p) :=
@@ -305,6 +386,7 @@ theorem expectedQ_greedyPol (A : Nat) (hA : 0 < A) (q : QF) (s1 : Nat) (hsep : S
     · rw [← hjm]; exact maxTo_ge (A - 1) (q s1) j (by omega)
   unfold expectedQ greedyPol
   rw [sumTo_eq_pol, hm]
+  rw [AITB.Pol.sumTo_congr (fun i hi => by rw [gProbX_eq_gProb_on_classes (q s1) A hA hsep.cls i hi])]
   have hc : ∀ i, i < A → gProb (q s1) A i * q s1 i
       = (if AITB.Pol.isTop (q s1) m i then (1 / (AITB.Pol.countTo (AITB.Pol.isTop (q s1) m) A : Rat)) * m else 0) := by
     intro i hi
@@ -339,8 +421,14 @@ theorem esarsa_greedy_near_tie_counterexample :
     by_cases h : a = 0 <;> simp [h] <;> norm_num
   · intro h
     have h00 := congrFun (congrFun h 0) 0
-    norm_num [esarsaStepP, esarsaStep, upd, expectedQ, greedyPol, sumTo, gProb, AITB.Pol.gProbAux, AITB.Pol.ceG, AITB.Pol.ceS,
-      absQ, AITB.Pol.minQ, AITB.Pol.tolS, AITB.Pol.tolG, AITB.Gen.equalToleranceSmall, AITB.Gen.equalToleranceGeneral] at h00
+    -- in BOTH forms of the wrapper the two values are tolerance-tied and get 1/2 each
+    cases hf : AITB.Gen.C09.greedyMaxFirst
+    · simp only [esarsaStepP, esarsaStep, expectedQ, greedyPol, gProbX_eq_gProb hf] at h00
+      norm_num [upd, sumTo, gProb, AITB.Pol.gProbAux, AITB.Pol.ceG, AITB.Pol.ceS,
+        absQ, AITB.Pol.minQ, AITB.Pol.tolS, AITB.Pol.tolG, AITB.Gen.equalToleranceSmall, AITB.Gen.equalToleranceGeneral] at h00
+    · simp only [esarsaStepP, esarsaStep, expectedQ, greedyPol, gProbX_eq_repaired hf, AITB.Pol.repaired_prob_eq] at h00
+      norm_num [upd, sumTo, AITB.Pol.countTo, AITB.Pol.maxTo, AITB.Pol.ceG, AITB.Pol.ceS,
+        absQ, AITB.Pol.minQ, AITB.Pol.tolS, AITB.Pol.tolG, AITB.Gen.equalToleranceSmall, AITB.Gen.equalToleranceGeneral] at h00
 
 /-! ### clause 4 with the library's policy objects as target / behaviour -/
 
@@ -355,12 +443,12 @@ theorem eval_traces_bounded_policies (k : Kind) (hk : k ≠ .is) (γ α lam tol 
   · intro s a
     unfold polOf
     split
-    · exact ⟨AITB.Pol.gProb_nonneg _ _ _, AITB.Pol.gProb_le_one _ _ _⟩
-    · exact ⟨AITB.Pol.epsProb_nonneg hεt (AITB.Pol.gProb_nonneg _ _ _), AITB.Pol.epsProb_le_one hεt (AITB.Pol.gProb_le_one _ _ _)⟩
+    · exact ⟨gProbX_nonneg _ _ _, gProbX_le_one _ _ _⟩
+    · exact ⟨AITB.Pol.epsProb_nonneg hεt (gProbX_nonneg _ _ _), AITB.Pol.epsProb_le_one hεt (gProbX_le_one _ _ _)⟩
     · exact hmat s a
   · intro e _
     show 0 < AITB.Pol.epsProb εb (greedyPol A tb e.s) A e.a
-    exact AITB.Pol.epsProb_pos hεb hA (AITB.Pol.gProb_nonneg _ _ _)
+    exact AITB.Pol.epsProb_pos hεb hA (gProbX_nonneg _ _ _)
 
 /-- off-policy control (RetraceL reads its behaviour policy) with an ε-greedy behaviour object -/
 theorem control_traces_bounded_epsgreedy (k : Kind) (hk : k ≠ .is) (γ α lam tol ε εb : Rat) (A : Nat) (hA : 0 < A)
@@ -369,6 +457,6 @@ theorem control_traces_bounded_epsgreedy (k : Kind) (hk : k ≠ .is) (γ α lam 
     TrOK tol (controlRun k γ α lam tol ε A (epsPol εb A (greedyPol A tb)) evs ([], q0)).1 :=
   control_traces_bounded k hk γ α lam tol ε A _ hA hε hγ hl htol evs
     (fun e _ => show 0 < AITB.Pol.epsProb εb (greedyPol A tb e.s) A e.a from
-      AITB.Pol.epsProb_pos hεb hA (AITB.Pol.gProb_nonneg _ _ _)) q0
+      AITB.Pol.epsProb_pos hεb hA (gProbX_nonneg _ _ _)) q0
 
 end AITB.Learn
